@@ -19,9 +19,10 @@ CLAUSES = {
     "C09": BASE + ["limit", "progress"],
     "C10": BASE + ["mlimit", "progress"],
     "C11": BASE + ["route", "progress"],
+    "C13": BASE + ["dispo", "result", "progress"],
 }
 OWN = {"C02": ["dispo"], "C03": ["stop", "dispo"], "C04": ["retry"], "C06": ["recur"], "C09": ["limit", "progress"],
-       "C10": ["mlimit", "progress"], "C11": ["route", "progress"]}
+       "C10": ["mlimit", "progress"], "C11": ["route", "progress"], "C13": ["result"]}
 
 
 def _record(args):
@@ -206,7 +207,39 @@ def fam_c03(tier, rng):
     return scs
 
 
-FAMS = {"C02": fam_c02, "C03": fam_c03, "C04": fam_c04, "C06": fam_c06, "C09": fam_c09, "C10": fam_c10, "C11": fam_c11}
+def fam_c13(tier, rng):
+    scs = []
+    outs = ["ok", "raise", "timeout", "e_ack+res", "e_ack+exc", "e_nack+res", "e_reject+exc", "e_retry+res", "e_reschedule+res+cb",
+            "e_ack", "e_ack+res+exc", "e_ack+exc+res", "e_nack+exc+cb"]
+    for out in outs:
+        for mx, pre in ((0, 0), (2, 1), (2, 2)):
+            for rec_ in (None, 2000):
+                for res in (True, False):
+                    if ("+res" in out or "+exc" in out) and not res:
+                        continue
+                    job = {"id": "j", "actor": "job", "script": ["raise"] * pre + [out], "retries": mx, "result": res,
+                           "timeout_s": 1 if out == "timeout" else None}
+                    if rec_:
+                        job["defer_by_ms"] = rec_
+                    base = default_scenario(jobs=[job, {"id": "s", "actor": "job2", "script": ["ok"], "at_ms": 5000, "result": res}],
+                                            actors={"job": {"variant": "dep" if out.startswith("e_") else "plain", "policy": ["const", 100]},
+                                                    "job2": {"variant": "plain"}},
+                                            worker={"tasks_limit": 2, "messages_limit": 0, "grace_s": 0.5}, results=True,
+                                            horizon_ms=8000, deadline_ms=7000)
+                    if tier == "quick" and rng.random() > 0.4:
+                        continue
+                    scs.append(base)
+                    if res:   # every result-bucket call failing, one at a time
+                        for k in (1, 2, 3):
+                            if tier == "quick" and rng.random() > 0.5:
+                                continue
+                            f = copy.deepcopy(base)
+                            f["store_fail_at"] = [k]
+                            scs.append(f)
+    return scs
+
+
+FAMS = {"C13": fam_c13, "C02": fam_c02, "C03": fam_c03, "C04": fam_c04, "C06": fam_c06, "C09": fam_c09, "C10": fam_c10, "C11": fam_c11}
 
 
 def run(pid: str, tier: str, seed: int, *, replay: dict | None = None) -> int:
@@ -269,6 +302,13 @@ def run(pid: str, tier: str, seed: int, *, replay: dict | None = None) -> int:
         vb = tlc.validate_traces("Trace_Worker", "Trace_Worker.cfg", other_tr)
         ck.add_tlc(vb.result, "re-validation of rejected traces without this property's clauses")
         other = {idx[k] for k in vb.rejected}
+        if pid == "C13":
+            # a run rejected only when a result-store fault is injected: the fault changed the disposition
+            base_of = {str({k: v for k, v in sc.items() if k != "store_fail_at"}): bi for bi, sc in enumerate(scs) if not sc.get("store_fail_at")}
+            for i in list(other):
+                bi = base_of.get(str({k: v for k, v in allsc[i].items() if k != "store_fail_at"}))
+                if allsc[i].get("store_fail_at") and bi is not None and bi not in v.rejected:
+                    other.discard(i)
         if pid == "C03":
             # a run that breaks the broker life cycle only when the stop request is injected is a C03
             # violation (a message lost / duplicated by the shutdown); if the same scenario without the
